@@ -4,7 +4,7 @@ from engine import run_sim_check
 import drivercases as dc
 from asyncchecks import *
 
-THEOREMS = ["one_socket_per_step", "socket_task_first_ready", "socket_task_priority", "unregister_removes_both", "receive_delivers_what_recv_returned", "disconnect_unregisters_first"]
+THEOREMS = ["one_socket_per_step", "socket_task_first_ready", "socket_task_priority", "unregister_removes_both", "receive_delivers_what_recv_returned", "disconnect_unregisters_first", "disconnected_socket_is_never_dispatched_again"]
 
 
 def generate(rnd, tier):
